@@ -32,7 +32,7 @@ func (w *World) drawExternal() {
 	p.CacheKind = []string{"chaos", "noop", "lru", "lru-ttl"}[t.Intn(4)]
 	p.CacheSize = []int{1, 2, 8}[t.Intn(3)]
 	p.CacheTTL = []time.Duration{10 * time.Second, time.Minute, 10 * time.Minute}[t.Intn(3)] // the LRU's expiry ticker fires every TTL/100 of fake time
-	if w.mode.Faults || w.mode.Prop == "C14" {
+	if w.mode.Faults || w.mode.StoreFaults || w.mode.Prop == "C14" {
 		for _, k := range []string{"store.err", "store.lost", "store.corrupt", "cache.miss", "cache.evict", "cache.err", "cache.drop"} {
 			if t.Chance(1, 2) {
 				p.Fault[k] = t.Range(1, 2)
